@@ -88,7 +88,11 @@ var c18RealNames = map[int]string{rDialOk: "dial-ok", rDialFail: "dial-fail", rC
 func c18Names(ops []int) []string {
 	var out []string
 	for _, o := range ops {
-		if o >= 1000 {
+		if o == 2000 {
+			out = append(out, "new-session-first-preference-refused-with-status-11")
+		} else if o == 2001 {
+			out = append(out, "cmd-busy-then-ok-while-the-sequence-counter-wraps")
+		} else if o >= 1000 {
 			out = append(out, fmt.Sprintf("cmd-answered-with-code-%#02x", o-1000))
 		} else if o < len(c18OpNames) {
 			out = append(out, c18OpNames[o])
@@ -97,6 +101,14 @@ func c18Names(ops []int) []string {
 		}
 	}
 	return out
+}
+
+func init() {
+	// the default registry also carries the Go runtime and process collectors;
+	// they are not the library's and reading them (ReadMemStats, /proc) on every
+	// gather costs far more than the library's own metrics
+	prometheus.Unregister(prometheus.NewGoCollector())
+	prometheus.Unregister(prometheus.NewProcessCollector(prometheus.ProcessCollectorOpts{}))
 }
 
 // gather reads every bmc_* counter and gauge into a flat map.
@@ -350,6 +362,46 @@ func c18One(c c18Case) (string, string) {
 			runCmd("Get Device ID", &ipmi.GetDeviceIDCmd{}, nil, false)
 		case kCmdC1:
 			runCmd("Get Device ID", &ipmi.GetDeviceIDCmd{}, []env.Answer{env.Code("c1", 0xC1)}, false)
+		case 2000:
+			// a preference list whose first choice the BMC refuses in its Open Session
+			// Response (status 11h, unsupported cipher suite): one open was tried
+			if sess != nil {
+				continue
+			}
+			opts := &bmc.V2SessionOpts{SessionOpts: bmc.SessionOpts{Username: "c18", Password: cfg.Password, MaxPrivilegeLevel: ipmi.PrivilegeLevelUser}, CipherSuites: []ipmi.CipherSuite{ipmi.CipherSuite17, ipmi.CipherSuite3}}
+			refused := false
+			script, codesSeen, tx = nil, nil, 0
+			prevMenu := w.T.Menu
+			w.T.Menu = func(t *env.Transport, req []byte) []env.Answer {
+				if len(req) > 5 && req[5]&0x3f == ref.PTOpenReq && !refused {
+					refused = true
+					return []env.Answer{env.Raw("refused-11", func(t *env.Transport, rx *ref.Rx) []byte {
+						p := append([]byte{}, rx.ReplyPayload[:8]...)
+						p[1] = 0x11
+						return ref.BuildPacket(rx.ReplyPType, false, 0, 0, p, nil)
+					})}
+				}
+				return prevMenu(t, req)
+			}
+			sN, err := w.Conn.NewV2Session(w.Ctx, opts)
+			w.T.Menu = prevMenu
+			exp.add("bmc_session_open_attempts_total{}", 1)
+			if err != nil {
+				exp.add("bmc_session_open_failures_total{}", 1)
+			} else {
+				exp.add("bmc_sessions_open{}", 1)
+				sess = sN
+			}
+			for i := 0; i < len(cfg.CipherSuiteData)/16+1; i++ {
+				exp.account("Get Channel Cipher Suites", 1, []byte{0}, false)
+			}
+		case 2001:
+			// the session's sequence counter is about to wrap while a command is retried
+			if sess == nil {
+				continue
+			}
+			sess.AuthenticatedSequenceNumbers.Inbound = 0xFFFFFFFE
+			runCmd("Get Chassis Status", &ipmi.GetChassisStatusCmd{}, []env.Answer{busy}, false)
 		case -1:
 			// op codes 1000+cc: a command answered with completion code cc
 		default:
@@ -734,6 +786,10 @@ func runC18(r *rep.R) {
 	for cc := 1; cc < 256; cc++ {
 		do(c18Case{Ops: []int{1000 + cc}})
 		do(c18Case{Ops: []int{kNSOk, 1000 + cc, kCloseOk}})
+	}
+	// special histories
+	for _, h := range [][]int{{2000}, {2000, kCmdOk, kCloseOk}, {2000, kNSOk, kCloseOk}, {kNSOk, 2001, kCloseOk}, {kNSOk, kCmdOk, 2001, kCmdOk, kCloseOk}, {kNSOk, 2001, 2001, kCloseOk}} {
+		do(c18Case{Ops: h})
 	}
 	// dial / transport close histories
 	realOps := []int{rDialOk, rDialFail, rCmdOk, rCmdLostThenOk, rNSOk, rSessClose, rTransportClose, rDialZeroTimeoutClose, rDialNegTimeoutClose, rDialTwoOptionsClose, rDialAnyLiveCtxClose, rDialAnyDoneCtxClose, rCmdOnClosedConn, rDialNoPortClose}
